@@ -51,6 +51,7 @@ static int which;        // 11 or 15: which property's oracle classes may raise 
 #define DATA_OFF (BB_HDR + RB_HDR)
 #define RB_VERSION 1
 #define CHUNK_MAGIC 0xA1A1A1A1u
+#define LINENO_MIN 5000  // the harness logs with line numbers above this; libqb's own source lines are all below
 #define NOTICE "Log message too long to be stored in the blackbox.  Maximum is QB_LOG_MAX_LEN"
 
 static int p_wrapped, p_overlong, p_overlong_notice, p_dump_ok, p_dump_failed, p_dump_damaged_by_fault, p_second_dump, p_empty_dump,
@@ -172,9 +173,14 @@ static void make_args(int fid, uint64_t aseed, uint32_t serial, uint32_t mll, Ar
 	a.z = (size_t)r.u64() >> (r.below(56));
 	a.p = (void *)(uintptr_t)(0x1000 + (r.u64() & 0xffffffffffffULL));
 	bool allow_long = r.chance(1, 3);
-	a.s1 = make_str(r, str_len(r, mll, allow_long));
-	a.s2 = make_str(r, str_len(r, mll, false));
-	a.s3 = make_str(r, str_len(r, mll, false));
+	// an over-long string is only generated for the last %s of a format: a %s that follows an overflowing one is the
+	// separate hazard group HZ_SSS (format 29)
+	bool three = f.shape == SH_USSS, two = f.shape == SH_USS;
+	a.s1 = make_str(r, str_len(r, mll, allow_long && !three && !two));
+	a.s2 = make_str(r, str_len(r, mll, allow_long && two));
+	a.s3 = make_str(r, str_len(r, mll, allow_long && three));
+	if ((three || two) && a.s1.size() + a.s2.size() + 60 > mll) a.s1.resize(a.s1.size() / 4);
+	if (three && a.s1.size() + a.s2.size() + 60 > mll) a.s2.resize(a.s2.size() / 4);
 	if (f.shape == SH_UDD && fid == 13) a.d1 = (int)r.range(-24, 24);          // %*d width
 	if (f.shape == SH_UDS && fid == 14) a.d1 = (int)r.range(0, 40);            // %.*s precision
 	if (f.hazard == HZ_SSS) {
@@ -301,7 +307,7 @@ static void gen_logs(Rng &r, Plan &p, int n, const bool hz[HZ_N])
 static void gen_damage(Rng &r, Plan &p, const bool dz[D_N], bool no_ptr_range, bool no_fmt_deep)
 {
 	for (int tries = 0; tries < 20; tries++) {
-		int kind = (int)r.below(D_N);
+		int kind;
 		static const int w[D_N] = { 14, 6, 22, 6, 12, 16, 12, 8, 4 };
 		uint32_t t = (uint32_t)r.below(100), acc = 0;
 		for (kind = 0; kind < D_N - 1; kind++) { acc += (uint32_t)w[kind]; if (t < acc) break; }
@@ -386,10 +392,12 @@ static void gen(const char *prop, RunSpec &spec)
 	else if (mk >= 84 && mk < 92 && !no_big_mll) mll = r.chance(1, 3) ? 4096 : r.range(513, 4096);
 	else if (mk >= 92 && !no_small_mll) mll = r.range(16, 79);
 	p.set("mll", mll);
-	p.set("lineno_base", r.range(0, 60000));
+	// (qb_log_fini walks the call-site table, which is indexed by line number, taking a lock per entry: high bases cost time)
+	p.set("lineno_base", r.chance(1, 12) ? r.range(LINENO_MIN, 60000) : r.range(LINENO_MIN, 9000));
 	p.set("real_base_s", r.chance(1, 8) ? r.range(0, 4000000000LL) : r.range(1500000000, 1900000000));
 	p.set("real_base_ns", r.chance(1, 3) ? 0 : r.range(0, 999999999));
 	p.set("stack_fill", (int64_t)r.below(4));
+	p.set("text_cap", hz[HZ_WIDE] ? 0 : 500);
 	spec.explicit_faults = true;             // faults are (task, kind, n-th call) records chosen here, none fire otherwise
 
 	if (mode == 0) {
@@ -464,6 +472,7 @@ struct St {
 	int mode = 0;
 	uint32_t S = 1024, mll = 512, lineno_base = 0;
 	int stack_fill = 0;
+	int text_cap = 0;            // 0: no cap on the length of a formatted text
 	std::vector<Rec> recs;
 	std::string path;
 	int file_state = 0;          // 0 no file, 1 pristine dump, 2 damaged / faulty / never a dump
@@ -581,11 +590,13 @@ static uint32_t value_mode(int64_t mode, uint32_t raw, uint32_t cur, uint32_t ot
 	}
 }
 
-static void apply_damage(const Op &op)
+static void apply_damage(const Op &op_in)
 {
 	std::vector<uint8_t> d;
 	if (!read_all(G.path, d)) return;
+	Op op = op_in;       // a shrunk plan may carry anything: negative arguments become 0 (except the "bytes off the end" of D_TRUNC)
 	int kind = (int)(op.a[0] < 0 ? 0 : op.a[0] % D_N);
+	for (int k = 0; k < SIMK_OP_ARGS; k++) if (op.a[k] < 0 && !(kind == D_TRUNC && k == 1)) op.a[k] = 0;
 	uint32_t raw = (uint32_t)op.a[4];
 	bool done = false;
 	switch (kind) {
@@ -631,7 +642,7 @@ static void apply_damage(const Op &op)
 		uint32_t sz = im.word(c);
 		if (op.a[2] & 1) {
 			static const uint32_t mg[] = { 0, 0xD0D0D0D0u, 0xA110CED0u, 0xA1A1A1A0u };
-			im.set_word(c + 1, (op.a[3] % 5) == 4 ? raw : mg[op.a[3] % 5 < 0 ? 0 : op.a[3] % 5]);
+			im.set_word(c + 1, (op.a[3] % 5) == 4 ? raw : mg[op.a[3] % 5]);
 		} else {
 			uint32_t v;
 			switch (op.a[3] < 0 ? 0 : op.a[3] % 16) {
@@ -855,7 +866,9 @@ static void check_pristine(const std::string &out, int rc)
 			}
 			continue;
 		}
-		if (ln.tags & 0x80000000u) { internal++; continue; }      // libqb's own messages (QB_LOG_TAG_LIBQB_MSG) share the blackbox
+		// libqb's own messages (qb_util_log, qb_enter) share the blackbox: they come from its source files, whose line
+		// numbers are all far below the ones this harness logs with
+		if (ln.lineno < LINENO_MIN) { internal++; continue; }
 		got.push_back(ln);
 	}
 	count(p_internal_records, internal);
@@ -972,6 +985,14 @@ static void op_log(const Op &op)
 	time_t sec = (time_t)(now / 1000000000ULL);
 	unsigned long long ms = (now % 1000000000ULL) / 1000000ULL;
 	rec.text = expect_text(fmt.c_str(), f.shape, a);
+	// unless the plan allows texts of 511 characters and more (hazard group "text-longer-than-511"), shorten the string arguments
+	for (int guard = 0; guard < 40 && G.text_cap && rec.text.size() > (size_t)G.text_cap && f.hazard != HZ_WIDE; guard++) {
+		std::string &big = a.s1.size() >= a.s2.size() && a.s1.size() >= a.s3.size() ? a.s1 : a.s2.size() >= a.s3.size() ? a.s2 : a.s3;
+		if (big.empty() && a.fill.empty()) break;
+		if (!big.empty()) big.resize(big.size() - std::min<size_t>(big.size(), rec.text.size() - (size_t)G.text_cap));
+		else { a.fill.resize(a.fill.size() - std::min<size_t>(a.fill.size(), rec.text.size() - (size_t)G.text_cap)); fmt = std::string(f.fmt) + a.fill; }
+		rec.text = expect_text(fmt.c_str(), f.shape, a);
+	}
 	{
 		// the extended-information marker is stored as '|' (log_format.c: serialized output always carries the extended part)
 		size_t x = rec.text.find(QB_XC);
@@ -1037,6 +1058,7 @@ static void op_print()
 	std::string out;
 	if (G.cap && G.caplen > off) out.assign(G.capbuf + off, G.caplen - off);
 	bool pristine = G.file_state == 1 && !G.fault_since;
+	if (getenv("SIMK_BB_DEBUG")) fprintf(stderr, "---- print rc=%d pristine=%d dump_n=%zu\n%s----\n", rc, pristine, G.dump_n, out.c_str());
 	if (G.fault_since) count(p_read_fault_print);
 	ev(102, pristine ? 1 : 0, rc);
 	// robustness half: whatever the file was, no temporary shared memory of this process may be left behind
@@ -1114,8 +1136,9 @@ static void run(const char *prop, const RunSpec &spec)
 	G.S = (uint32_t)std::max<int64_t>(1024, std::min<int64_t>(1 << 20, p.get("size", 1024)));
 	int64_t mll = p.get("mll");
 	G.mll = mll <= 0 ? QB_LOG_MAX_LEN : (uint32_t)std::max<int64_t>(16, std::min<int64_t>(QB_LOG_ABSOLUTE_MAX_LEN, mll));
-	G.lineno_base = (uint32_t)std::max<int64_t>(0, std::min<int64_t>(60000, p.get("lineno_base")));
+	G.lineno_base = (uint32_t)std::max<int64_t>(LINENO_MIN, std::min<int64_t>(60000, p.get("lineno_base")));
 	G.stack_fill = (int)(p.get("stack_fill") & 3);
+	G.text_cap = (int)std::max<int64_t>(0, std::min<int64_t>(8000, p.get("text_cap")));
 	G.path = std::string(scratch_dir()) + "/dump";
 	snprintf(G.name, sizeof G.name, "bb%07d", (int)(getpid() % 10000000));
 	int fds0 = count_fds();
@@ -1125,9 +1148,10 @@ static void run(const char *prop, const RunSpec &spec)
 	c.shm_quota_bytes = 64 << 20;            // bounds what a lying word_size can make the printer allocate
 	shim_random_seed(spec.seed);
 	shim_hooks().on_fault = on_fault;
+	if (getenv("SIMK_BB_HIST")) shim_hooks().on_call = [](uint32_t site) { static uint64_t h[S_N]; static uint64_t n; h[site]++; if (++n % 20000 == 0) { for (int k = 0; k < S_N; k++) if (h[k]) fprintf(stderr, "site %d: %llu\n", k, (unsigned long long)h[k]); fprintf(stderr, "--\n"); } };
 
 	SchedCfg sc;
-	sched_cfg_from_seed(spec.seed, 1, 1000, 200000, sc);
+	sched_cfg_from_seed(spec.seed, 1, 1000, 2000000, sc);
 	sc.strategy = ST_SEQ;
 	sched_begin(spec, sc);
 	int64_t rs = std::max<int64_t>(0, std::min<int64_t>(4000000000LL, p.get("real_base_s", 1700000000)));
